@@ -8,6 +8,7 @@ The function's MIR is interpreted in the ring domain with
   * is_sign_negative(x) -> 0/1 by class
   * comparisons    -> decided from the class: both sides reduce to k + c*frac with integers k, c
   * saturating/wrapping add/sub -> plain +/- (no saturation inside the domain bound)
+  * `x % 1.0`      -> frac, frac - 1 or 0 by class (IEEE remainder keeps the sign of x)
 and the result must be exactly F. Branches (`if t > x { t - 1.0 } else { t }`) are followed, not
 guessed: this is what the term-level analysis in rules_C12 cannot do."""
 from fractions import Fraction
@@ -35,7 +36,7 @@ def evaluate(prog, body, cls, domain_bits=63):
             # substitute x = F + frac
             terms = [{(): Fraction(1)}]
             for sy in mono:
-                sub = {("F",): Fraction(1), ("frac",): Fraction(1)} if sy == "x" else {(sy,): Fraction(1)}
+                sub = ({("F",): Fraction(1)} if integral else {("F",): Fraction(1), ("frac",): Fraction(1)}) if sy == "x" else {(sy,): Fraction(1)}
                 terms = [PL.pmul(t, sub) for t in terms]
             for t in terms:
                 out = PL.padd(out, {m: c * cc for m, cc in t.items()})
@@ -93,6 +94,16 @@ def evaluate(prog, body, cls, domain_bits=63):
             raise Wrong("the argument is converted to %s, which saturates beyond 2^%d although the function is exact up to 2^%d today" % (to, bits - 1, domain_bits))
         return ("symop", "Add", F, ("f", 1.0)) if cls == "negative non-integer" else F
     it.float_to_int = hook
+    plain_binop = it.binop
+
+    def binop(op, a, b, ty):
+        # IEEE `x % 1.0` keeps the sign of x: frac for x >= 0, frac - 1 for a negative non-integer, (-)0 for an integer
+        if op == "Rem" and a == x and b == ("f", 1.0):
+            if integral:
+                return ("f", 0.0)
+            return fr if not neg else ("symop", "Sub", fr, ("f", 1.0))
+        return plain_binop(op, a, b, ty)
+    it.binop = binop
     try:
         r = A.deref_all(it, it.call_body(body, [x]))
         res = to_kc(r)
@@ -106,4 +117,6 @@ def evaluate(prog, body, cls, domain_bits=63):
         return ("off", 0)
     if set(k) == {()} and k[()].denominator == 1:
         return ("off", int(k[()]))
+    if any(sy.startswith("?") for m in k for sy in m):
+        return ("unknown", "the result contains an operation the floor analysis does not interpret: %s" % sorted({sy for m in k for sy in m if sy.startswith("?")})[0][:120])
     return ("bad", "the result is floor(x) + (%s) on this class, not an integer-valued offset" % k)
